@@ -230,9 +230,9 @@ func deathKind(stderrHead string) string {
 func segTimeout(tier string, seg segSpec) time.Duration {
 	if tier == "quick" {
 		if seg.Light {
-			return 60 * time.Second
+			return 180 * time.Second // -race copies: the slowdown varies between 2x and 13x
 		}
-		return 100 * time.Second
+		return 150 * time.Second
 	}
 	return 25 * time.Minute
 }
